@@ -24,6 +24,25 @@ type World struct {
 	typeIDs  map[string]int
 	typeOfID map[string]types.Type
 	zeroMemo map[smt.Sort]*smt.Term
+	bv       map[types.Object]int // named unsigned types modelled as bit-vectors
+}
+
+// BVWidth reports whether t is modelled as a bit-vector and its width.
+// Disabled: a bit-vector field inside a datatype makes z3 time out on every quantified obligation that mentions
+// the datatype (finite sort, model-based instantiation), so `bvtype` types are stored as integers and only
+// their bit operations go through bit-vectors (BridgeWidth).
+func (w *World) BVWidth(t types.Type) (int, bool) {
+	return 0, false
+}
+
+// BridgeWidth: width of a `bvtype` type, whose & | ^ &^ are computed in bit-vectors of exactly the type's width.
+func (w *World) BridgeWidth(t types.Type) (int, bool) {
+	if n, ok := t.(*types.Named); ok && w.bv != nil {
+		if bw, ok := w.bv[n.Obj()]; ok {
+			return bw, true
+		}
+	}
+	return 0, false
 }
 
 func NewWorld(modPath string) *World {
@@ -92,6 +111,9 @@ func (w *World) SortOf(t types.Type) smt.Sort {
 }
 
 func (w *World) sortOf(t types.Type) smt.Sort {
+	if bw, ok := w.BVWidth(t); ok {
+		return smt.BVSort(bw)
+	}
 	switch u := t.Underlying().(type) {
 	case *types.Basic:
 		switch {
@@ -166,6 +188,8 @@ func (w *World) zeroOfSort(s smt.Sort) *smt.Term {
 		z = w.C.False()
 	case s == smt.Int:
 		z = w.C.IntLit(0)
+	case s.IsBV():
+		z = w.C.BVLit(0, s.BVWidth())
 	case s == smt.Real:
 		z = w.C.RealLit(new(big.Rat))
 	case s == w.Str:
@@ -273,6 +297,9 @@ func intRange(t types.Type) (lo, hi *big.Int, unsigned bool, ok bool) {
 // (integer ranges of small/unsigned types, slice header sanity), or nil.
 func (w *World) WF(t types.Type, v *smt.Term, depth int) *smt.Term {
 	c := w.C
+	if v.Sort.IsBV() {
+		return nil
+	}
 	switch u := t.Underlying().(type) {
 	case *types.Basic:
 		lo, hi, _, ok := intRange(t)
